@@ -1141,6 +1141,9 @@ where
         let mut x = self.add_constant(layouter, x, K::ONE)?;
         if enforce_canonical {
             x = self.make_canonical(layouter, &x)?;
+        } else {
+            // The limbs are decomposed below with the well-formed bounds.
+            x = self.normalize(layouter, &x)?;
         };
         let mut bits = vec![];
         x.limb_values
